@@ -86,7 +86,12 @@ func (c *CDCServer) getCDCHandler() http.Handler {
 			metrics.TaskRequestCountVec.WithLabelValues(metrics.UnknownTypeLabel, metrics.UnmarshalErrorStatusLabel).Inc()
 			return
 		}
-		metrics.TaskRequestCountVec.WithLabelValues(cdcRequest.RequestType, metrics.TotalStatusLabel).Inc()
+		requestTypeLabel := cdcRequest.RequestType
+		if _, ok := requestHandlers[requestTypeLabel]; !ok {
+			// an arbitrary client string is not a valid metric label (it panics when it isn't UTF-8)
+			requestTypeLabel = metrics.UnknownTypeLabel
+		}
+		metrics.TaskRequestCountVec.WithLabelValues(requestTypeLabel, metrics.TotalStatusLabel).Inc()
 
 		response := c.handleRequest(cdcRequest, writer)
 
